@@ -34,7 +34,7 @@ func init() {
 			"evaluated on 6 documents each: battery, random, path-directed, the suite's own document for suite paths, both number decodings, and a variant with " +
 			"non-JSON leaves; judged: no panic, (non-empty,nil) xor (nil, one of 3 runtime errors), FunctionFailed only if a user function returned an error, " +
 			"no pool poison in results; non-trivial = path has a filter, slice, recursive step or function; distinct = distinct (path, document)",
-		Assumptions: []string{"bounded time is observed as 'returned before the 10 s per-case watchdog (confirmed 3x60 s alone)'", "user functions: recording wrappers around the standard set"},
+		Assumptions: []string{"bounded time is observed as 'returned before the 10 s per-case watchdog (time spent inside one library call; confirmed twice alone in fresh processes, 45 s each)'", "user functions: recording wrappers around the standard set"},
 		Plan: func(tier string, seed int64) *harness.Plan {
 			var src *strSource
 			return &harness.Plan{
